@@ -78,3 +78,96 @@ def planted_partitions(rng, count, maxitems=300):
             pos[oldi + 1] = newi + 1
         out.append({"vals": newvals, "k": k, "cert": [[pos[i] for i in b] for b in cert]})
     return out
+
+
+def pack_families(rng, count, maxn=12, minv=0):
+    """bin-packing inputs beyond the exhaustive scope: uniform, small-items, triplet (C/4<v<C/2), half-size, exact fills"""
+    out = []
+    for i in range(count):
+        kind = i % 6
+        C = rng.choice([10, 20, 50, 100])
+        n = rng.randint(6, maxn)
+        lo = max(minv, 1 if kind else minv)
+        if kind == 0:
+            vals = [rng.randint(minv, C) for _ in range(n)]
+        elif kind == 1:
+            vals = [rng.randint(lo, max(lo, C // 3)) for _ in range(n)]
+        elif kind == 2:
+            vals = [rng.randint(C // 4 + 1, max(C // 4 + 1, (C - 1) // 2)) for _ in range(n)]
+        elif kind == 3:
+            vals = [rng.choice([C // 2, C // 2 + 1, C // 2 - 1, C // 3, C - C // 2]) for _ in range(n)]
+            vals = [max(lo, v) for v in vals]
+        elif kind == 4:   # planted exact fills, shuffled
+            vals = []
+            while len(vals) < n:
+                rest = C
+                for _ in range(rng.randint(1, 3)):
+                    x = rng.randint(lo, max(lo, rest - lo)) if rest > lo else rest
+                    x = min(x, rest)
+                    vals.append(x); rest -= x
+                if rest >= lo and rest > 0:
+                    vals.append(rest)
+            vals = [v for v in vals if v >= minv][:maxn]
+        else:
+            vals = [rng.randint(max(lo, C // 5), (2 * C) // 3) for _ in range(n)]
+        rng.shuffle(vals)
+        out.append({"vals": vals, "C": C})
+    return out
+
+
+def cover_families(rng, count, maxn=12):
+    out = []
+    for i in range(count):
+        kind = i % 5
+        C = rng.choice([10, 12, 30, 60, 100])
+        n = rng.randint(3, maxn)
+        if kind == 0:
+            vals = [rng.randint(1, C + 2) for _ in range(n)]
+        elif kind == 1:
+            vals = [rng.randint(1, max(1, C // 3)) for _ in range(n)]
+        elif kind == 2:   # around the class thresholds C/2 and C/3
+            vals = [max(1, rng.choice([C // 2, C // 2 - 1, C // 2 + 1, C // 3, C // 3 + 1, C // 3 - 1, 1, 2])) for _ in range(n)]
+        elif kind == 3:
+            vals = [rng.randint(1, max(1, C // 2)) for _ in range(n)]
+        else:
+            vals = [rng.randint(max(1, C // 4), C - 1) for _ in range(n)]
+        rng.shuffle(vals)
+        out.append({"vals": vals, "C": C})
+    return out
+
+
+def _planted_bins(rng, count, maxitems, C_choices, exact=True):
+    out = []
+    for _ in range(count):
+        C = rng.choice(C_choices)
+        m = rng.randint(2, max(2, maxitems // 4))
+        vals, cert = [], []
+        for b in range(m):
+            per = rng.randint(1, 5)
+            cuts = sorted(rng.randint(1, C - 1) for _ in range(per - 1))
+            parts = [b2 - a for a, b2 in zip([0] + cuts, cuts + [C])]
+            parts = [p for p in parts if p > 0]
+            if sum(parts) != C:
+                parts = [C]
+            ids = list(range(len(vals) + 1, len(vals) + len(parts) + 1))
+            vals += parts
+            cert.append(ids)
+            if len(vals) >= maxitems:
+                break
+        perm = list(range(len(vals)))
+        rng.shuffle(perm)
+        newvals = [0] * len(vals)
+        pos = {}
+        for newi, oldi in enumerate(perm):
+            newvals[newi] = vals[oldi]
+            pos[oldi + 1] = newi + 1
+        out.append({"vals": newvals, "C": C, "cert": [[pos[i] for i in b] for b in cert]})
+    return out
+
+
+def planted_packings(rng, count, maxitems=300):
+    return _planted_bins(rng, count, maxitems, [10, 60, 100, 1000])
+
+
+def planted_covers(rng, count, maxitems=300):
+    return _planted_bins(rng, count, maxitems, [10, 12, 60, 100, 1200])
